@@ -327,6 +327,26 @@ def rule_absolute_paths(ctx, rid="R6.5"):
     return r
 
 
+def _forwards_context(calls, g, depth=0):
+    """g hands a `context=` keyword it receives on to an error constructor: through **kwargs, or through a parameter of that name"""
+    kwarg = g.node.args.kwarg.arg if getattr(g.node, "args", None) is not None and g.node.args.kwarg else None
+    if kwarg is None and "context" not in g.all_params:
+        return False
+    for n in walk_body(g):
+        if not isinstance(n, ast.Call):
+            continue
+        passes = any((k.arg is None and isinstance(k.value, ast.Name) and k.value.id == kwarg) or
+                     (k.arg == "context" and isinstance(k.value, ast.Name) and k.value.id == "context" and "context" in g.all_params) for k in n.keywords)
+        if not passes:
+            continue
+        tg = calls.callee(g, n)
+        if any(t.kind == "class" and t.typ in ("ValidationError", "SchemaError", "Error") for t in tg):
+            return True
+        if depth < 2 and any(t.kind == "func" and t.func is not None and t.func is not g and _forwards_context(calls, t.func, depth + 1) for t in tg):
+            return True
+    return False
+
+
 def rule_context_is_list(ctx, rid="R6.5c"):
     """_Error.__init__ walks its `context` argument twice (it stores list(context), then sets each child's parent), so a
     one-shot iterator would leave every child without its parent link and hence without absolute paths."""
@@ -344,7 +364,8 @@ def rule_context_is_list(ctx, rid="R6.5c"):
             if kw is None:
                 continue
             tg = calls.callee(f, n)
-            if not any(t.kind == "class" and t.typ in ("ValidationError", "SchemaError", "Error") for t in tg):
+            if not any(t.kind == "class" and t.typ in ("ValidationError", "SchemaError", "Error") for t in tg) and \
+                    not any(t.kind == "func" and t.func is not None and _forwards_context(calls, t.func) for t in tg):
                 continue
 
             def listy(e, depth=0):
